@@ -109,7 +109,7 @@ pub struct KnownFinding {
 /// Format of /verif/KNOWN_FINDINGS.txt (committed, never written at run time):
 ///   known: property=<id> signature=<sig> <what fails>
 ///   fixed: property=<id> <commit> <what failed>          (documentation only, suppresses nothing)
-/// A signature ending in `*` is a prefix scope.
+/// `*` inside a signature matches any run of characters (scope).
 pub fn load_known_findings(prop: &str) -> Vec<KnownFinding> {
     let path = format!("{VERIF_ROOT}/KNOWN_FINDINGS.txt");
     let text = std::fs::read_to_string(&path).unwrap_or_default();
@@ -131,10 +131,41 @@ pub fn load_known_findings(prop: &str) -> Vec<KnownFinding> {
     out
 }
 
+/// `*` in a scope matches any (possibly empty) run of characters; everything else is literal.
 fn sig_matches(scope: &str, sig: &str) -> bool {
-    match scope.strip_suffix('*') {
-        Some(prefix) => sig.starts_with(prefix),
-        None => scope == sig,
+    let parts: Vec<&str> = scope.split('*').collect();
+    if parts.len() == 1 {
+        return scope == sig;
+    }
+    let mut rest = sig;
+    for (i, part) in parts.iter().enumerate() {
+        if i == 0 {
+            match rest.strip_prefix(part) {
+                Some(r) => rest = r,
+                None => return false,
+            }
+        } else if i == parts.len() - 1 {
+            return rest.ends_with(part);
+        } else {
+            match rest.find(part) {
+                Some(pos) => rest = &rest[pos + part.len()..],
+                None => return false,
+            }
+        }
+    }
+    true
+}
+
+#[cfg(test)]
+mod tests {
+    use super::sig_matches;
+    #[test]
+    fn globs() {
+        assert!(sig_matches("C17:*:derived_sequence:foreign", "C17:sync:derived_sequence:foreign"));
+        assert!(!sig_matches("C17:*:derived_sequence:foreign", "C17:sync:derived_sequence:dup"));
+        assert!(sig_matches("C09:arrow:or:operands=*", "C09:arrow:or:operands=odd"));
+        assert!(sig_matches("C26:x", "C26:x") && !sig_matches("C26:x", "C26:xy"));
+        assert!(sig_matches("a*", "a") && sig_matches("*b", "ab") && !sig_matches("a*c", "ab"));
     }
 }
 
